@@ -39,9 +39,20 @@ class Registry:
                 self.entries[k.value] = {kk.value: vv for kk, vv in zip(v.keys, v.values) if isinstance(kk, ast.Constant)}
 
     def module_string(self, name: str) -> Optional[Tuple[str, ast.stmt]]:
-        sts = self.module.assigns.get(name)
-        if sts and isinstance(sts[-1], ast.Assign) and isinstance(sts[-1].value, ast.Constant) and isinstance(sts[-1].value.value, str):
-            return sts[-1].value.value, sts[-1]
+        """The string constant bound to `name` in the registry module, followed through `from <module> import <name>` chains
+        (a backend may share a def string with the base registry instead of repeating it)."""
+        m, nm = self.module, name
+        for _ in range(4):
+            sts = m.assigns.get(nm)
+            if sts and isinstance(sts[-1], ast.Assign) and isinstance(sts[-1].value, ast.Constant) and isinstance(sts[-1].value.value, str):
+                return sts[-1].value.value, sts[-1]
+            imp = m.imports.get(nm)
+            if not imp or imp[1] in (None, "*"):
+                return None
+            m2 = self.ctx.repo.modules.get(imp[0])
+            if m2 is None:
+                return None
+            m, nm = m2, imp[1]
         return None
 
     def module_lambda(self, name: str) -> Optional[Tuple[ast.Lambda, ast.stmt]]:
